@@ -3,8 +3,10 @@
 Proved (lean/Paroxy/Props/C13.lean): text-level and token-loop-level sentences, for every text and every
 token list.  Tie = correspondence:
 
- * `regex:<pass>`  — the six fixed regexes of `Cleanup` (+ strip, tab expansion) against their structural
-   Lean models, token-level bounded-exhaustively (DESIGN §3, R2) and on random texts;
+ * `regex:<pass>`  — the fixed regexes of `Cleanup` (+ strip, tab expansion) against their structural
+   Lean models, token-level bounded-exhaustively (DESIGN §3, R2) and on random texts; `regex:sys_path` is, since
+   repair F50, a PARSER-ORACLE stream (the statements are delimited by `ast`, as for the guard): impl = model =
+   the specification `keepOutsideGuards` on `injectionMarks`;
  * `loop:synthetic` — the real `for` loop of `full_cleaning` fed with arbitrary token lists (the module's
    `generate_tokens` is replaced in-process by a replayer) against the Lean loop;
  * `loop:programs` — real tokens of generated / corpus / malformed programs: model = real output.
@@ -85,6 +87,17 @@ def parser_oracle(text):
     except (SyntaxError, ValueError):
         return None
     return [[n.lineno, n.end_lineno, int(ast.dump(n.test) == GUARD_DUMP)] for n in body if isinstance(n, ast.If)]
+
+
+def parser_stmts(text):
+    """What `suppress_sys_path_injection` learns from the parser (repair F50): None when `ast.parse` raises
+    SyntaxError or ValueError, else (lineno, end_lineno, col_offset == 0) of ALL the top-level statements, in
+    source order."""
+    try:
+        body = ast.parse(text).body
+    except (SyntaxError, ValueError):
+        return None
+    return [[n.lineno, n.end_lineno, int(n.col_offset == 0)] for n in body]
 
 
 class _Captured(Exception):
@@ -192,8 +205,6 @@ def regex_streams(ctx, drv, Cleanup):
     plans = [
         ("first_comments", Cleanup.suppress_first_comments,
          ["#", "x", "\n", " ", "# paroxython: a", "paroxython", ":", "#PAROXYTHON\t:"], 5 if quick else 6),
-        ("sys_path", Cleanup.suppress_sys_path_injection,
-         [inj, inj[:-1], "x", "\n", " "], 5 if quick else 7),
         ("normalize", Cleanup.normalize_paroxython_comments,
          ["#", " ", "\t", "paroxython", "PaRoxYthon", ":", "x", "paroxythn", "…"], 4 if quick else 5),
         ("blank_lines", Cleanup.suppress_blank_lines,
@@ -208,13 +219,94 @@ def regex_streams(ctx, drv, Cleanup):
         for _ in range(2000 if quick else 20000):
             texts.append("".join(ctx.rng.choice(alphabet) for _ in range(ctx.rng.randrange(maxlen + 1, maxlen + 8))))
         compare_pass(ctx, drv, name, f, texts, exhaustive_upto=maxlen, alphabet=alphabet)
+    sys_path_stream(ctx, drv, Cleanup)
     # composites on random mixtures of all alphabets
-    big = sorted({a for p in plans for a in p[2]})
+    big = sorted({a for p in plans for a in p[2]} | {inj, inj[:-1]})
     fin = lambda s: Cleanup.suppress_useless_pass_statements(Cleanup.suppress_blank_lines(s.strip()))  # noqa
     for name, f in (("finish", fin),):
         texts = ["".join(ctx.rng.choice(big) for _ in range(ctx.rng.randrange(0, 14)))
                  for _ in range(4000 if quick else 40000)]
         compare_pass(ctx, drv, name, f, texts)
+
+
+def sys_path_cases(drv, texts):
+    cases = [{"text": t, "stmts": parser_stmts(t)} for t in texts]
+    out = []
+    for i in range(0, len(cases), 2000):
+        out += drv.call("c13.model.sys_path", cases=cases[i:i + 2000])["r"]
+    return cases, out
+
+
+def sys_path_stream(ctx, drv, Cleanup):
+    """`suppress_sys_path_injection` (repair F50: statements delimited by the PARSER) on every sequence over a
+    token alphabet and on random longer ones; the parser is the oracle (`ast` here, as for the guard streams):
+    impl = model = the specification `keepOutsideGuards` on `injectionMarks` (the lines of the column-0
+    statements whose first line is an injection are removed, all of them, and nothing else)."""
+    quick = ctx.tier == "quick"
+    stream = "regex:sys_path"
+    inj = '__import__("sys").path[0:0] = '
+    alphabet = [inj, inj[:-1], "x", "\n", " ", "[", "]", '"""', "\\\n", "; y", "#"]
+    maxlen = 4 if quick else 5
+    texts = list(seqs(alphabet, maxlen))
+    for _ in range(6000 if quick else 60000):
+        texts.append("".join(ctx.rng.choice(alphabet) for _ in range(ctx.rng.randrange(maxlen + 1, maxlen + 9))))
+    # whole statements around the shapes of finding F50
+    parts = [inj + '[\n    "a",\n    "b",\n]', inj + '["a",\n "b"]', inj + '[\n        "a",\n    "b"]', inj + '"""a\nb\n""".split()',
+             inj + '\\\n    ["a"]', inj + '["a"]; y = 2', inj + '[\n "a"]; y = 2', 's = """\n' + inj + '["a"]\n"""', inj + '["a"]',
+             "x = 1", "# comment", "", "if x:\n    " + inj + "[1]", "x = [\n1]; " + inj + "[2]", 'if __name__ == "__main__":\n    main()',
+             inj, inj[:-1] + "1", " " + inj + "[3]", "def f():\n    return [\n" + inj + "[4]\n]"]
+    for _ in range(3000 if quick else 30000):
+        k = ctx.rng.randrange(1, 6)
+        texts.append("\n".join(ctx.rng.choice(parts) for _ in range(k)) + ctx.rng.choice(["", "\n"]))
+    texts = F50_INPUTS + texts  # the inputs of finding F50 first: they are the replay if the stage loses a line again
+    cases, res = sys_path_cases(drv, texts)
+    changed = multi = 0
+
+    def differs(x):
+        i, mm = call(Cleanup.suppress_sys_path_injection, x), sys_path_cases(drv, [x])[1][0]
+        return i.get("ok") != mm["model"] or mm["model"] != mm["spec"] or not mm["rangesOk"]
+
+    for t, c, m in zip(texts, cases, res):
+        impl = call(Cleanup.suppress_sys_path_injection, t)
+        nontrivial = impl.get("ok") != t
+        changed += nontrivial
+        if nontrivial and c["stmts"] and any(a < b and k for a, b, k in c["stmts"]):
+            multi += 1
+        ctx.count(stream, t, nontrivial=nontrivial)
+        if impl.get("ok") != m["model"] or m["model"] != m["spec"] or not m["rangesOk"]:
+            ctx.cov["disagreements_checked"] += 1
+            is_program = c["stmts"] is not None
+            if not is_program:
+                # not a program: the property says nothing of it (the parser will report the error); the tie is broken
+                if "corr:regex:sys_path" not in ctx.broken:
+                    ctx.broken.append("corr:regex:sys_path")
+                    small = shrink_text(t, lambda x: parser_stmts(x) is None and differs(x))
+                    ctx.notes.append("suppress_sys_path_injection differs from the model on a text that is not a program: " + json.dumps(
+                        {"text": small, "impl": call(Cleanup.suppress_sys_path_injection, small),
+                         "model": sys_path_cases(drv, [small])[1][0]["model"]}, ensure_ascii=False)[:600])
+                continue
+            small = t if t in F50_INPUTS else shrink_text(t, lambda x: parser_stmts(x) is not None and differs(x))
+            c1, m1 = sys_path_cases(drv, [small])
+            replay = {"kind": "sys-path", "text": small, "stmts": c1[0]["stmts"], "impl": call(Cleanup.suppress_sys_path_injection, small),
+                      "model": m1[0]["model"], "spec": m1[0]["spec"], "rangesOk": m1[0]["rangesOk"]}
+            if replay["impl"].get("ok") != replay["spec"] and replay["model"] == replay["spec"]:
+                ctx.violations.append({"what": "suppress_sys_path_injection, on a valid program, does not remove exactly the lines of the "
+                                               "top-level statements that begin with an injection (a statement written on several lines "
+                                               "is not removed with all its lines, or something else is removed)",
+                                       "replay": replay, "signature": "C13:sys-path-injection-statement"})
+            else:
+                ctx.broken.append("corr:regex:sys_path" if replay["model"] == replay["spec"] else "corr:sys_path:model-vs-spec")
+                ctx.notes.append(json.dumps(replay, ensure_ascii=False)[:600])
+            return
+    ctx.dist(f"{stream}:texts", len(texts))
+    ctx.dist(f"{stream}:changed_by_pass", changed)
+    ctx.dist(f"{stream}:multi-line-statement-removed", multi)
+    ctx.cov.setdefault("exhaustive_streams", {})[stream] = {"alphabet": alphabet, "all_sequences_up_to_length": maxlen,
+                                                             "oracle": "ast.parse (top-level statements: lineno, end_lineno, col_offset == 0)"}
+    ex = inj + '[\n    "a",\n    "b",\n]\n# comment\nx = 1\n'
+    c1, m1 = sys_path_cases(drv, [ex])
+    ctx.sample({"stream": stream, "input": ex, "stmts": c1[0]["stmts"], "impl": call(Cleanup.suppress_sys_path_injection, ex),
+                "model": m1[0]["model"], "spec": m1[0]["spec"]}, limit=12)
 
 
 def compare_pass(ctx, drv, name, f, texts, exhaustive_upto=None, alphabet=None):
@@ -401,7 +493,12 @@ def guard_cases(drv, Cleanup, texts):
     """Model answers for `suppress_main_guard` / the whole pre-processing, the parser being the oracle."""
     cases = []
     for t in texts:
-        cases.append({"text": t, "ifs": parser_oracle(t), "ifs1": parser_oracle(Cleanup.suppress_first_comments(t))})
+        t1 = Cleanup.suppress_first_comments(t)
+        try:
+            t2 = Cleanup.suppress_main_guard(t1)
+        except Exception:  # noqa
+            t2 = t1
+        cases.append({"text": t, "ifs": parser_oracle(t), "ifs1": parser_oracle(t1), "stmts2": parser_stmts(t2)})
     out = []
     for i in range(0, len(cases), 300):
         out += drv.call("c13.model.guard", cases=cases[i:i + 300])["r"]
@@ -491,6 +588,22 @@ def loop_programs(ctx, drv, pp, programs):
 
 
 # ------------------------------------------------------------------------------- program generator
+
+INJ = '__import__("sys").path[0:0] = '
+# § = a place where the noisy layout may put a comment
+MULTILINE_INJECTIONS = [
+    INJ + '[§\n    "a",§\n    "b",§\n]', INJ + '["a",§\n "b"]', INJ + '[§\n        "a",§\n    "b"]', INJ + '[\n"a",\n        "b"]',
+    INJ + '"""a\nb\n""".split()', INJ + "\'\'\'a\n    b\'\'\'.split()", INJ + '\\\n    ["a"]', INJ + '["a"] + \\\n["b"]',
+    INJ + '["a"]; y = 2', INJ + '[§\n    "a",§\n]; y = 2', INJ + '(§\n    ["a"]§\n)',
+]
+# the three inputs of finding F50 (and their neighbours)
+F50_INPUTS = [
+    INJ + '[\n    "a",\n    "b",\n]\n# comment\nx = 1\n', INJ + '["a",\n "b"]\n# comment\nx = 1\n',
+    INJ + '[\n        "a",\n    "b"]\n# comment\nx = 1\n', INJ + '"""a\nb\n""".split()\n# comment\nx = 1\n',
+    'x = 1\n' + INJ + '\\\n    ["a"]\ny = 2\n', INJ + '["a"]; y = 2\nx = 1\n', 's = """\n' + INJ + '["a"]\n"""\nx = 1 # c\n',
+    'x = 1\n' + INJ + '[\n    "a",\n]', 'x = 1\n' + INJ + '[\n    "a",\n]\nif __name__ == "__main__":\n    main()\n',
+]
+
 
 class ProgGen:
     """A *core* program is a list of items; `render(core, noise)` lays it out with or without noise.
@@ -703,9 +816,26 @@ class ProgGen:
             else:
                 h = ("hint", 0, r.choice(["foo", "-bar"]))
             items = [h] + items if r.random() < 0.5 else items + [h]
+        def injection(tag, simple):
+            """an injection statement: on one line, or (repair F50) on several lines / followed by `; y = 2`"""
+            if self.shapes and r.random() < 0.6:
+                self.used.add("multi-line-injection")
+                self.used.add(f"multi-line-injection:{tag}")
+                return r.choice(MULTILINE_INJECTIONS)
+            return simple
+
         if r.random() < 0.15:
-            items.append(("code", 0, '__import__("sys").path[0:0] = ["programs"]', None))
-        items += self.block(0, 0, n=r.randrange(1, 5))
+            items.append(("code", 0, injection("start", '__import__("sys").path[0:0] = ["programs"]'), None))
+        if self.shapes and r.random() < 0.12:
+            items += self.block(0, 0, n=r.randrange(1, 3))
+            if r.random() < 0.4:
+                self.used.add("injection-lookalike-in-string")
+                items.append(("code", 0, 's = """\n__import__("sys").path[0:0] = ["kept"]\n"""', None))
+            else:
+                items.append(("code", 0, injection("middle", '__import__("sys").path[0:0] = ["middle"]'), None))
+            items += self.block(0, 0, n=r.randrange(1, 3))
+        else:
+            items += self.block(0, 0, n=r.randrange(1, 5))
         if self.shapes and r.random() < 0.12:
             self.used.add("injection-line-late")
             self.late_injection = r.choice(["before-guard", "last"])
@@ -722,7 +852,7 @@ class ProgGen:
             return r.choice(['if __name__ == "__main__":', "if __name__=='__main__':", 'if  __name__  ==  "__main__" :'])
 
         if self.late_injection == "before-guard":
-            items.append(("code", 0, '__import__("sys").path[0:0] = ["late"]', None))
+            items.append(("code", 0, injection("before-guard", '__import__("sys").path[0:0] = ["late"]'), None))
         if r.random() < 0.3 or self.late_injection == "before-guard":
             kind = r.random()
             if kind < 0.15:
@@ -755,7 +885,7 @@ class ProgGen:
                     if r.random() < 0.5:
                         items += self.block(0, 2, n=1)
         if self.late_injection == "last":
-            items.append(("code", 0, '__import__("sys").path[0:0] = ["last"]  ', None))
+            items.append(("code", 0, injection("last", '__import__("sys").path[0:0] = ["last"]  '), None))
         return items
 
     # -- layout
@@ -849,15 +979,26 @@ def is_main_guard(node):
 
 
 def is_injection(node):
+    """A top-level statement that begins, at column 0, with `__import__("sys").path[0:0] = `."""
     try:
-        return isinstance(node, ast.Assign) and ast.unparse(node.targets[0]) == "__import__('sys').path[0:0]"
+        return (isinstance(node, ast.Assign) and node.col_offset == 0
+                and ast.unparse(node.targets[0]) == "__import__('sys').path[0:0]")
     except Exception:  # noqa
         return False
 
 
+def on_injection_lines(body):
+    """The property lets the injection LINES go: the statements that share a line with an injection statement
+    (`…path[0:0] = ["a"]; y = 2`) go with it."""
+    spans = [(n.lineno, n.end_lineno) for n in body if is_injection(n)]
+    return [n for n in body if any(a <= n.lineno <= b for a, b in spans)]
+
+
 def strip_noise(tree):
     """The specification's noise removal, on the tree."""
-    tree.body = [s for s in tree.body if not is_main_guard(s) and not is_injection(s)]
+    body = [s for s in tree.body if not is_main_guard(s)]
+    gone = on_injection_lines(body)
+    tree.body = [s for s in body if not any(s is g for g in gone)]
 
     class T(ast.NodeTransformer):
         def generic_visit(self, node):
@@ -1388,7 +1529,7 @@ def property_stream(ctx, drv, stream, cases, seen_sigs):
                 return
 
 
-HAND_PICKED = [
+HAND_PICKED = F50_INPUTS + [
     'x = 1\n__import__("sys").path[0:0] = ["a"]\nif __name__ == "__main__":\n    pass', 'x = 1\n__import__("sys").path[0:0] = ["a"]',
     '__import__("sys").path[0:0] = ["a"]', 'if\t__name__ == "__main__":\n    pass\nx = 1\n', 'if __name__ == \\\n  "__main__":\n    pass\nx = 1\n',
     'if (__name__ == "__main__"):\n    main()\nx = 1\n', "if __name__ == \'\'\'__main__\'\'\':\n    main()\nelif y:\n    z = 1\nx = 1\n",
@@ -1513,7 +1654,7 @@ def run(ctx):
         "clean(clean(x)) == clean(x) on whole programs",
     ]
     ctx.cov["trusted_base"] = core.BASE_TRUST + [
-        "R2: the structural Lean models of the six fixed regexes of Cleanup agree with the `regex` engine — validated "
+        "R2: the structural Lean models of the fixed regexes of Cleanup (suppress_sys_path_injection is no longer one of them: parser oracle since F50) agree with the `regex` engine — validated "
         "token-level bounded-exhaustively and randomly on every run, not proved",
         "CPython's tokenizer and parser, the `regex` engine, `str.strip`, `str.split`: outside the model",
         "whitespace is modelled on the alphabet ASCII 0x09-0x0D, 0x20-0x7E (+ non-space non-ASCII); `\\s` and str.isspace differ on 0x1C-0x1F",
@@ -1521,6 +1662,8 @@ def run(ctx):
     ctx.assumptions += [
         "theorems about the token loop quantify over ALL token lists (kinds, strings, positions), not only those CPython produces",
         "the sentences needing CPython's grammar are exercised on generated/corpus programs only",
+        "suppress_sys_path_injection: the parser's line numbers are those of split('\\n') (no lone \\r / \\f\\r used as a line break: "
+        "there `lines[lineno - 1]` may raise IndexError, which the model reads as 'no match'); the streams contain no \\r",
     ]
     unexplained = [v for v in ctx.violations if v.get("signature") is None]
     if not unexplained and (not ctx.proofs_ok or ctx.broken):
@@ -1589,6 +1732,14 @@ def replay(ctx, path):
             print("impl   :", call(pp.Cleanup.suppress_main_guard, obj["source"]))
             print("model  :", repr(m[0]["guard"]))
             print("spec   :", repr(m[0]["spec"]), "(keepOutsideGuards)")
+            return 0
+        if kind == "sys-path":
+            c, m = sys_path_cases(drv, [obj["text"]])
+            print("text   :", repr(obj["text"]))
+            print("parser :", c[0]["stmts"], "(lineno, end_lineno, col_offset == 0)")
+            print("impl   :", call(pp.Cleanup.suppress_sys_path_injection, obj["text"]))
+            print("model  :", repr(m[0]["model"]))
+            print("spec   :", repr(m[0]["spec"]), "(keepOutsideGuards on injectionMarks)", "rangesOk =", m[0]["rangesOk"])
             return 0
         if kind == "regex-pass":
             f = {"first_comments": pp.Cleanup.suppress_first_comments,
